@@ -9,7 +9,9 @@ alpha scalar / per cell):
  (iv)  solveExplicitPDE(old, dt, RHS) == old + dt*RHS on the interior with ghosts re-imposed,
        clean input byte-identical, result a new object,
  (v)   |explicit - implicit| shrinks by >= 3.5 per halving of dt (O(dt^2)),
- (vi)  all sequences over {implicit, explicit}^3: every step satisfies (i) resp. (iv).
+ (vi)  all sequences over {implicit, explicit}^3: every step satisfies (i) resp. (iv),
+ (viii) all three-step time loops over the alphabet of _loop_part (coefficient object kept / edited /
+       advanced / replaced between steps, dt kept or halved, term list rebuilt or reused).
 """
 import itertools
 
@@ -55,13 +57,13 @@ def cases(tier):
                             pax = next((ax for ax in range(d) if U.periodic_ok(U.AXES[cls][ax])), None)
                             if pax is not None:
                                 sp[pax] = "U"
-                        for part in ("implicit", "explicit"):
+                        for part in ("implicit", "explicit", "loop"):
                             out.append({"grid": U.spec(cls, shape, tuple(sp), org), "setup": setup, "part": part})
     return out
 
 
 def weight(case):
-    return int(np.prod([k + 2 for k in case["grid"]["shape"]])) * (3 if case["part"] == "implicit" else 1)
+    return int(np.prod([k + 2 for k in case["grid"]["shape"]])) * (3 if case["part"] in ("implicit", "loop") else 1)
 
 
 def make_bc(g, setup):
@@ -133,6 +135,109 @@ def snap(v):
         [bool(v._value.modified), bool(v.BCs.modified), hasattr(v, "_BCsTerm")]
 
 
+ALPHA_ACTIONS = ["keep", "edit", "edit_ppm", "edit_apply", "assign", "advance", "replace"]
+DT_PATTERNS = [(1, 1, 1), (1, 2, 2), (1, 1, 2), (1, 2, 1)]
+
+
+def _loop_part(g, case, res, add, residual, D, u, beta, gamma):
+    """(viii) time loops as users write them: three backward-Euler steps on ONE solution variable with ONE
+    coefficient object alpha (scalar, ndarray or CellVariable) that is kept, edited in place (by 50% or by a
+    few ppm), edited and refreshed with apply_BCs, assigned through .value, advanced by its own solvePDE, or
+    replaced between the steps; dt kept or halved; the term list rebuilt for every step or one list object
+    reused with its transient entry replaced.  All sequences.  Every step must satisfy the residual form
+    with the alpha and dt in force at that step and equal the step of a freshly built problem."""
+    setup = case["setup"]
+    ts = ("D", "U", "B", "G")
+    Ms, vs = spatial(g, ts, D, u, beta, gamma)
+    old0 = U.generic_array(g.dims, tag=421, signed=True)
+    a0 = 0.5 + U.generic_array(g.dims, tag=423) / 8.0
+    a_alt = 0.75 + U.generic_array(g.dims, tag=425) / 4.0
+    dt0 = 2.0 ** -6
+
+    def fresh_step(oldvals, avals, dt, bcsrc):
+        ref = pf.CellVariable(g.mesh, np.array(oldvals, dtype=float), make_bc(g, setup))
+        a = avals if np.isscalar(avals) else pf.CellVariable(g.mesh, np.array(avals, dtype=float))
+        eq = [pf.transientTerm(ref, dt, a)] + Ms + vs
+        kap = eq_cond(total_matrix(ref, eq))
+        pf.solvePDE(ref, eq)
+        return np.asarray(ref.value, dtype=float).copy(), kap
+
+    for akind in ("scalar", "ndarray", "cellvar"):
+        acts = list(itertools.product(ALPHA_ACTIONS, repeat=2)) if akind == "cellvar" else [("keep", "keep"), ("replace", "edit")]
+        for (act1, act2) in acts:
+            for dpat in DT_PATTERNS:
+                for reuse_list in (False, True):
+                    phi = pf.CellVariable(g.mesh, old0.copy(), make_bc(g, setup))
+                    if akind == "scalar":
+                        alpha = 1.5
+                    elif akind == "ndarray":
+                        alpha = a0.copy()
+                    else:
+                        alpha = pf.CellVariable(g.mesh, a0.copy())
+                    eqlist = None
+                    label = "alpha %s, between steps %s/%s, dt pattern %s, %s" % (
+                        akind, act1, act2, "/".join("dt" if k == 1 else "dt/2" for k in dpat),
+                        "one reused term list" if reuse_list else "term list rebuilt per step")
+                    for step in range(3):
+                        act = (None, act1, act2)[step]
+                        if act in ("edit", "edit_ppm", "edit_apply", "assign", "advance", "replace"):
+                            if akind == "scalar":
+                                alpha = alpha * 1.5
+                            elif akind == "ndarray":
+                                if act == "replace":
+                                    alpha = a_alt.copy()
+                                else:
+                                    alpha[...] = alpha * 1.5
+                            elif act == "edit":
+                                alpha.value[...] = np.asarray(alpha.value) * 1.5
+                            elif act == "edit_ppm":
+                                alpha.value[...] = np.asarray(alpha.value) * (1.0 + 2.0 ** -18)
+                            elif act == "edit_apply":
+                                alpha.value[...] = np.asarray(alpha.value) * 1.5
+                                alpha.apply_BCs()
+                            elif act == "assign":
+                                alpha.value = np.asarray(alpha.value) * 0.75 + 0.125
+                            elif act == "advance":     # alpha is itself a solved field (coupled system)
+                                pf.solvePDE(alpha, [pf.transientTerm(alpha, 1.0, 1.0), pf.linearSourceTerm(beta)])
+                            elif act == "replace":
+                                alpha = pf.CellVariable(g.mesh, a_alt.copy())
+                        dt = dt0 / dpat[step]
+                        oldv = np.asarray(phi.value, dtype=float).copy()
+                        avals = alpha if akind == "scalar" else (np.array(alpha) if akind == "ndarray" else np.asarray(alpha.value, dtype=float).copy())
+                        tt = pf.transientTerm(phi, dt, alpha)
+                        if reuse_list:
+                            if eqlist is None:
+                                eqlist = [tt] + Ms + vs
+                            else:
+                                eqlist[0] = tt
+                            eq = eqlist
+                        else:
+                            eq = [tt] + Ms + vs
+                        n_before = len(eq)
+                        ids_before = [id(t) for t in eq]
+                        ret = pf.solvePDE(phi, eq)
+                        res["evals"] += 1
+                        res["nontrivial"] += 1
+                        if len(eq) != n_before or [id(t) for t in eq] != ids_before:
+                            add("loop_term_list_modified", "%s: solvePDE changed the caller's term list (length %d -> %d)" % (label, n_before, len(eq)))
+                        want, kap = fresh_step(oldv, avals, dt, None)
+                        if not np.isfinite(kap) or kap * EPS > 1e-6:
+                            res["precond_failed"] = res.get("precond_failed", 0) + 1
+                            break
+                        aobj = avals if np.isscalar(avals) else pf.CellVariable(g.mesh, np.array(avals, dtype=float))
+                        r, sc = residual(ret, oldv, dt, aobj, Ms, vs)
+                        tolr = 64 * EPS * kap * (np.max(sc) + 1e-300)
+                        got = np.asarray(ret.value, dtype=float)
+                        tol = 64 * EPS * kap * max(1.0, float(np.max(np.abs(want))))
+                        if not np.all(np.abs(r) <= tolr) or not np.all(np.abs(got - want) <= tol):
+                            add("loop_step", "%s: step %d differs from the backward-Euler step of a freshly built problem by %.3g "
+                                "(residual alpha*(new-old)/dt + A*new - b = %.3g, tolerances %.3g / %.3g)"
+                                % (label, step + 1, float(np.max(np.abs(got - want))), float(np.max(np.abs(r))), tol, tolr),
+                                alpha=akind, actions=[act1, act2], dt_pattern=list(dpat), reuse_list=reuse_list)
+                            break
+    res["sample"] = {"grid": U.spec_id(g.spec), "setup": setup, "sequences": (len(ALPHA_ACTIONS) ** 2 + 4) * len(DT_PATTERNS) * 2}
+
+
 def run_case(case):
     g = Grid(case["grid"])
     res = {"evals": 0, "nontrivial": 0, "findings": [], "outcomes": {}}
@@ -170,7 +275,9 @@ def run_case(case):
             sc = sc + np.abs(np.asarray(v))[imask]
         return r, sc
 
-    if case["part"] == "implicit":
+    if case["part"] == "loop":
+        _loop_part(g, case, res, add, residual, D, u, beta, gamma)
+    elif case["part"] == "implicit":
         for ts in TERMSETS:
             if setup == "periodic" and g.d == 1 and "B" not in ts:
                 continue          # fully periodic 1-D steady problem without sink is singular
